@@ -132,7 +132,7 @@ def run(tier):
     nprog = 60 if tier == "quick" else 1500
     chk.rule = ("seeded ownership-biased statement programs (Text, lists, lists of Text, Kombinationen with Text/list fields, lists of Kombinationen, Variable in "
                 "every role: global, local, temporary, by-value and Referenz argument, return value, list element, field, loop collection/element; early return, "
-                "break/continue from inner scopes, short-circuit operands, falls arms, discarded results). Monitors per program: allocation ledger at -O 0/1/2, "
+                "break/continue from inner scopes, short-circuit operands, falls arms, discarded results; functions also forward declared / generic); every fourth program is one of C08's copy/alias programs. Monitors per program: allocation ledger at -O 0/1/2, "
                 "valgrind memcheck at -O 1 (thorough: 0/1/2), ASan+UBSan runtime at -O 1. Distinct by source hash; non-trivial = ledger saw >= 1 allocation.")
     chk.assumptions = ["leak rule only for executions that end through main's return", "a pointer the ledger never saw (obtained by library code through malloc) is counted, not judged",
                        "ASan leak detection is off (ledger and memcheck decide leaks)", "programs stay inside the reference model's domain (no runtime errors)"]
@@ -148,11 +148,17 @@ def run(tier):
         def work(job):
             i, mons = job
             rnd = random.Random("%d/%s/%d" % (chk.seed, PID, i))
-            g = OwnGen(rnd)
-            local = rnd.random() < 0.35   # all variables local to one function
-            prog = g.build(n_items=rnd.randint(10, 22), d=2, nest=rnd.randint(1, 3), n_funcs=0 if local else rnd.randint(1, 3))
-            if local:
-                wrap_in_function(prog)
+            if i % 4 == 3:
+                # C08's copy/alias programs (by-value + Referenz arguments, callee forms, operator overloads, local holders):
+                # the constructs where the compiler elides copies, i.e. where an ownership mistake frees twice or never
+                from checks import c08
+                prog = c08.build(rnd).prog
+            else:
+                g = OwnGen(rnd)
+                local = rnd.random() < 0.35   # all variables local to one function
+                prog = g.build(n_items=rnd.randint(10, 22), d=2, nest=rnd.randint(1, 3), n_funcs=0 if local else rnd.randint(1, 3))
+                if local:
+                    wrap_in_function(prog)
             try:
                 exp = runner.expected(prog)
             except ModelDomain:
